@@ -44,6 +44,8 @@ def instances(tier):
         out.append({"gen": g, "seq": ["long_names"], "gaps": True})
         out.append({"gen": g, "seq": [4, "long_status"], "gaps": True})
         out.append({"gen": g, "seq": [2, 5], "gaps": True})
+        # the console repeats a frame byte for byte (same packet id): it is delivered as often as it was sent
+        out.append({"gen": g, "seq": [4, 4, 8, 4], "same_pid": True})
         if tier == "thorough":
             for c in range(18):
                 for k in (1, 11):
@@ -68,10 +70,11 @@ def run(ctx, p):
         e = _long_entry(g.n, c) if isinstance(c, str) else cat[c]
         # console -> client direction: to 0xB0, from 0x80/0x90
         from ref import framing
-        data = e[3](i + 1)
-        frames.append(framing.frame(g.n, 0xB0, catalog.to_address(e[2]), 40 + i, e[2], data))
+        same = p.get("same_pid")
+        data = e[3](1 if same else i + 1)
+        frames.append(framing.frame(g.n, 0xB0, catalog.to_address(e[2]), 40 if same else 40 + i, e[2], data))
         # expected = what the unsegmented frame decodes to (whole-payload decode through the registry)
-        hdr = g.Header(0xB0, catalog.to_address(e[2]), 40 + i, e[2], len(data))
+        hdr = g.Header(0xB0, catalog.to_address(e[2]), 40 if same else 40 + i, e[2], len(data))
         msgs.append(g.reg.get_decoder(e[2]).decode(bytes(data), hdr).message)
     stream = bytes(b for f in frames for b in f)
     n = len(stream)
@@ -113,7 +116,7 @@ def run(ctx, p):
             rig.loop.vt_run(k_cuts + 3.5)
         got = [(h.packet_id, m) for _, h, m in rig.received]
         ctx.observe("delivered", len(got))
-        exp = [(40 + i, m) for i, m in enumerate(msgs)]
+        exp = [(40 if p.get("same_pid") else 40 + i, m) for i, m in enumerate(msgs)]
         ok = len(got) == len(exp) and all(a[0] == b[0] and a[1] == b[1] for a, b in zip(got, exp))
         ctx.check(ok, "same_messages_once_in_order", detail={"delivered": len(got), "expected": len(exp)})
         ctx.check(len(rig.net.conns) == 1 and not rig.task_failures(), "same_messages_once_in_order", detail="connection was reset / task failure")
